@@ -8,7 +8,10 @@ func flagFlow(c *Ctx, flagName string) { gen.CheckFlagBinding(c.Run, c.Prog, fla
 
 func genMap(c *Ctx) { gen.CheckKinds(c.Run, c.Prog) }
 
-func genGeneric(c *Ctx) { gen.CheckKinds(c.Run, c.Prog) }
+func genGeneric(c *Ctx) {
+	gen.CheckKinds(c.Run, c.Prog)
+	gen.CheckAliasAware(c.Run, c.Prog)
+}
 
 func genFormat(c *Ctx) {}
 
